@@ -153,8 +153,15 @@ def rule_dummy_path(repo, rule):
     for n in fi.node.body:
         if isinstance(n, ast.If) and "guard" in norm(n.test) and "None" in norm(n.test):
             guarded_if = n
+    value_split = None
     if guarded_if is None:
-        raise AnalysisError("add_constraint: no `guard is None` test found")
+        # the split may be on the guard's VALUE (`is_guard()`): under a false guard the dummy arm is still taken, which is
+        # what this property needs (that the emission then depends on a secret is C06/C09's concern)
+        for n in fi.node.body:
+            if isinstance(n, ast.If) and norm(n.test) in ("not is_guard()", "is_guard()"):
+                guarded_if, value_split = n, norm(n.test)
+    if guarded_if is None:
+        raise AnalysisError("add_constraint: no test on the guard found")
     t = guarded_if.test
     # which arm is the guarded one?
     arm = guarded_if.body
@@ -162,6 +169,10 @@ def rule_dummy_path(repo, rule):
         arm = guarded_if.orelse
     if isinstance(t, ast.UnaryOp) and isinstance(t.operand, ast.Compare) and isinstance(t.operand.ops[0], ast.IsNot):
         arm = guarded_if.orelse
+    if value_split == "is_guard()":
+        arm = guarded_if.orelse
+    if value_split:
+        rule.note(fi.loc(guarded_if), fi.fq, "dummy path selected by `%s`" % value_split, "taken whenever the guard's value is 0")
     calls = [c for s in arm for c in ast.walk(s) if isinstance(c, ast.Call)]
     params = fi.params[:3]
     v, w, y = params
@@ -299,6 +310,26 @@ def rule_lazy(repo, rule):
             rule.ok(where, fi.fq, term)
 
 
+def rule_unguarded_emissions(repo, r6):
+    from .c01 import emission_sites, site_results, RT as _RT
+    for fi, call, kind in emission_sites(repo):
+        if kind != "direct" or fi.fq == _RT + ":add_constraint":
+            continue
+        res = site_results(fi, call, (), honest_premise=False)
+        bad = [(d, p) for _path, cases in res for d, p, _v in cases if not isinstance(p, str) and not p.is_zero()]
+        und = [p for _path, cases in res for d, p, _v in cases if isinstance(p, str)]
+        term = norm(call)
+        if bad:
+            d, p = bad[0]
+            r6.violation(fi.loc(call), fi.fq, "%s: v*w - y = %s when {%s}" % (term, p, ", ".join(d)),
+                         "this constraint bypasses the guard (add_constraint_unsafe) but is not an identity of its hints for every "
+                         "guard value: under a false guard the recorded witness violates it", "%s/%s" % (fi.fq, term[:50]))
+        elif und:
+            r6.undecided(fi.loc(call), fi.fq, term, und[0])
+        else:
+            r6.ok(fi.loc(call), fi.fq, term, "identity of the hints on every path, LinComb.ONE taken as the guard wire")
+
+
 def check(repo, rep, tier):
     rep.explanation = (
         "Guard inertness decided on the code's shape: path conditions of every raise (from the abstract "
@@ -320,23 +351,7 @@ def check(repo, rep, tier):
     r5 = rep.rule("R-C07-5", "lazy branches of if_then_else run under cond / its complement", floor=1)
     rule_lazy(repo, r5)
     r6 = rep.rule("R-C07-6", "constraints emitted outside the dummy path hold for either guard value", floor=3)
-    from .c01 import emission_sites, site_results, RT as _RT
-    for fi, call, kind in emission_sites(repo):
-        if kind != "direct" or fi.fq == _RT + ":add_constraint":
-            continue
-        res = site_results(fi, call, (), honest_premise=False)
-        bad = [(d, p) for _path, cases in res for d, p, _v in cases if not isinstance(p, str) and not p.is_zero()]
-        und = [p for _path, cases in res for d, p, _v in cases if isinstance(p, str)]
-        term = norm(call)
-        if bad:
-            d, p = bad[0]
-            r6.violation(fi.loc(call), fi.fq, "%s: v*w - y = %s when {%s}" % (term, p, ", ".join(d)),
-                         "this constraint bypasses the guard (add_constraint_unsafe) but is not an identity of its hints for every "
-                         "guard value: under a false guard the recorded witness violates it", "%s/%s" % (fi.fq, term[:50]))
-        elif und:
-            r6.undecided(fi.loc(call), fi.fq, term, und[0])
-        else:
-            r6.ok(fi.loc(call), fi.fq, term, "identity of the hints on every path, LinComb.ONE taken as the guard wire")
+    rule_unguarded_emissions(repo, r6)
     r8 = rep.rule("R-C07-8", "emission is memoryless: no state kept from a (possibly false-guarded) earlier call decides later emission", floor=4)
     from .memoryless import rule_memoryless
     rule_memoryless(repo, r8)
